@@ -22,7 +22,9 @@ EXPLANATION = (
     "store of a modifier table anywhere in the package (Network, configuration, commands) stores the whole table received -- nothing between "
     "the user and _prepare_ode_content filters or rewrites it (also not a helper between network.rate_modifier and the generator: R3); R1 also: the "
     "reaction to override is not looked up in a table with one slot per file index; R2 also: idxfromfile is written by the reaction parsers and by "
-    "Network.reindex only, and never chosen by the truthiness of the raw index (0 is an index).  Verdicts: VIOLATION only for a construct that was "
+    "Network.reindex only, and never chosen by the truthiness of the raw index (0 is an index); R13 (shared with C14.R6) every Network method or property the renderer module reads "
+    "(network.species, network.reactions, a position look-up such as network.where_index) that memoises its result is reset by every public edit of what it was computed from, so the "
+    "positions an override lands on are those of the network as it is at this rendering.  Verdicts: VIOLATION only for a construct that was "
     "reconstructed completely and differs from the requirement; an arrangement that is not read answers UNRECOGNISED.")
 ASSUMPTIONS = [
     "the Jacobian part of a modifier is C02.R1/R2",
@@ -60,6 +62,10 @@ def check(ctx):
     # each rendering is computed from the network of that call: the renderer keeps no memo between two renderings (shared with C17.R7)
     from .c17 import stateless_renderer
     stateless_renderer(ctx, package(ctx.tree), "R12")
+    # .. and what the renderer ASKS the network (`network.where_index(key)`, any method of Network called in templateloader.py) is
+    # computed from the network as it is now: a memoising method is reset by every edit of what it was computed from (shared with
+    # C14.R6).  A stale position table makes the override land on another reaction after remove_reaction.
+    _r13_queries_fresh(ctx)
 
 
 # ------------------------------------------------------------------ R6  command line: every term is accumulated
@@ -1286,3 +1292,21 @@ def _r11_name_tokenizers(ctx):
                           "cut at the sign and silently becomes another species (`H`, `C`, `c` + `C3H2`)", expected="split at the separators, or a class containing + and -", found=pat)
     ctx.check(True, "R11", "name tokenizers scanned", (INIT, 0), f"{n} name-matching character classes in the command modules")
 
+
+
+def _r13_queries_fresh(ctx):
+    import ast as _ast
+    pkg = package(ctx.tree)
+    mod = pkg.modules.get(FILE)
+    if mod is None:
+        return
+    netmeths = set(pkg.cls("Network").methods)
+    asked = sorted({c.func.attr for c in _ast.walk(mod) if isinstance(c, _ast.Call) and isinstance(c.func, _ast.Attribute) and isinstance(c.func.value, _ast.Name)
+                    and c.func.value.id in ("network", "net") and c.func.attr in netmeths})
+    asked += sorted({a.attr for a in _ast.walk(mod) if isinstance(a, _ast.Attribute) and isinstance(a.value, _ast.Name) and a.value.id in ("network", "net")
+                     and a.attr in netmeths and a.attr not in asked})
+    if not asked:
+        return
+    from .c14 import _r6 as memo_rule
+    ctx.absorb(lambda sub: memo_rule(sub, package(sub.tree)), "R13",
+               only=lambda o: o.outcome != "MISSING" and any(o.key.startswith(f"Network.{m_}:") for m_ in asked))
